@@ -16,6 +16,8 @@ struct World {
   explicit World(Rng& r) {
     auto poly = [&](int n, int R) { Path64 p; for (int i = 0; i < n; ++i) p.emplace_back((int64_t)r.range(0, R), (int64_t)r.range(0, R)); return p; };
     for (int i = 0; i < 3; ++i) A.push_back(poly((int)r.range(4, 9), 200));
+    // a staircase with collinear vertices on its horizontal treads (horizontal trimming must not touch the shared vertices)
+    A.push_back(Path64{{10, 10}, {60, 10}, {110, 10}, {110, 60}, {150, 60}, {190, 60}, {190, 190}, {100, 190}, {10, 190}, {10, 100}});
     for (int i = 0; i < 2; ++i) B.push_back(poly((int)r.range(4, 8), 200));
     for (int i = 0; i < 2; ++i) C.push_back(poly((int)r.range(3, 7), 200));
     for (int i = 0; i < 3; ++i) L.push_back(poly((int)r.range(2, 6), 200));
@@ -28,6 +30,9 @@ Paths64 bitsD(const PathsD& ps) { Paths64 r; for (auto& p : ps) { Path64 q; for 
 Out run_program(int prog, World& w) {
   Out o;
   switch (prog) {
+    case 7: case 8: { ClipperD c(prog == 7 ? 1 : 5); PathsD a, b; for (auto& p : w.A) { PathD q; for (auto& v : p) q.emplace_back(v.x * 0.5, v.y * 0.5); a.push_back(q); } for (auto& p : w.B) { PathD q; for (auto& v : p) q.emplace_back(v.x * 0.5, v.y * 0.5); b.push_back(q); }
+              c.AddSubject(a); c.AddClip(b); PolyTreeD t; c.Execute(ClipType::Union, FillRule::NonZero, t); o.push_back(bitsD(PolyTreeToPathsD(t))); PolyTreeD t2; c.Execute(ClipType::Xor, FillRule::EvenOdd, t2); o.push_back(bitsD(PolyTreeToPathsD(t2))); break; }
+    case 9: { Clipper64 c; c.PreserveCollinear(false); c.AddReuseableData(w.reuse); Paths64 s; c.Execute(ClipType::Union, FillRule::NonZero, s); o.push_back(s); c.Execute(ClipType::Difference, FillRule::EvenOdd, s); o.push_back(s); break; }
     case 1: { Clipper64 c; c.AddReuseableData(w.reuse); c.AddSubject(w.B); Paths64 s; c.Execute(ClipType::Xor, FillRule::EvenOdd, s); o.push_back(s); PolyTree64 t; Paths64 op; c.Execute(ClipType::Intersection, FillRule::NonZero, t, op); o.push_back(PolyTreeToPaths64(t)); break; }
     case 2: { ClipperOffset co; co.AddPaths(w.A, JoinType::Round, EndType::Polygon); co.AddPaths(w.L, JoinType::Miter, EndType::Square); Paths64 s; co.Execute(7.5, s); o.push_back(s); co.Execute(-3.0, s); o.push_back(s); break; }
     case 3: { RectClip64 rc(Rect64(40, 40, 160, 160)); o.push_back(rc.Execute(w.A)); o.push_back(rc.Execute(w.B)); RectClipLines64 rl(Rect64(40, 40, 160, 160)); o.push_back(rl.Execute(w.L)); break; }
@@ -53,7 +58,7 @@ void yield_cb(int) { if (!g_sched || !t_tid) return; g_sched->segment_done(t_tid
 int cmd_thr(const Args& a) {
   Rng r((uint64_t)argi(a, "seed", 1)); World w(r); std::string mode = args(a, "mode", "sched");
   std::ofstream os(args(a, "out", "/dev/stdout")); std::vector<long long> progs = argl(a, "progs", "1,2");
-  std::map<int, Out> seq; for (int p = 1; p <= 6; ++p) seq[p] = run_program(p, w);
+  std::map<int, Out> seq; for (int p = 1; p <= 9; ++p) seq[p] = run_program(p, w);
   if (mode == "sched") {
     std::ifstream in(args(a, "in", "")); std::string line; long long nsched = 0, skip = argi(a, "skip", 0), stride = argi(a, "stride", 1), cnt = 0; int nseg = (int)argi(a, "nseg", 6);
     while (std::getline(in, line)) {
@@ -78,7 +83,7 @@ int cmd_thr(const Args& a) {
       std::ostream& o = os;
       Rng rp((uint64_t)argi(a, "seed", 1)); World w(rp);     // a FRESH world per round (first use of the shared container happens concurrently)
       std::vector<long long> eq(nthreads, 1); std::vector<std::thread> th; std::atomic<int> go{0};
-      for (int t = 0; t < nthreads; ++t) th.emplace_back([&, t] { while (!go.load()) std::this_thread::yield(); for (int i = 0; i < iters; ++i) { int p = 1 + (t + i + rd) % 6; if (!(run_program(p, w) == seq[p])) eq[t] = 0; } });
+      for (int t = 0; t < nthreads; ++t) th.emplace_back([&, t] { while (!go.load()) std::this_thread::yield(); for (int i = 0; i < iters; ++i) { int p = 1 + (t + i + rd) % 9; if (!(run_program(p, w) == seq[p])) eq[t] = 0; } });
       go.store(1); for (auto& x : th) x.join();
       o << Ev("Free").kn("nthreads", nthreads).kn("iters", iters).kv("eq", jints(eq)).str() << "\n"; o.flush();
     }
